@@ -100,14 +100,21 @@ def _run_case(case):
         static = bool(case.get("st"))
         t0 = None if static else day(0)
         out, inp = fm.Output(name="Out", static=static), fm.Input(name="In", static=static)
-        out >> inp  # pylint: disable=pointless-statement
+        if case.get("stk"):
+            out >> fm.adapters.StackTime() >> inp  # pylint: disable=expression-not-assigned
+        else:
+            out >> inp  # pylint: disable=pointless-statement
         inp.ping()
         obs = {"res": "ok", "shape": [], "field": [], "mask": []}
         try:
             out.push_info(fm.Info(time=t0, grid=gs, units="m"))
             inp.exchange_info(fm.Info(time=t0, grid=gd, units="m"))
             out.push_data(arr, t0)
-            data = fm.data.get_magnitude(inp.pull_data(day(0)))
+            if case.get("stk"):
+                out.push_data(arr + 500.0, day(1))
+                data = fm.data.get_magnitude(inp.pull_data(day(1)))
+            else:
+                data = fm.data.get_magnitude(inp.pull_data(day(0)))
             if static:
                 data = fm.data.get_magnitude(inp.pull_data(day(2)))
             obs["shape"] = list(map(int, data.shape))
